@@ -444,7 +444,7 @@ impl Check for TreeProp {
             "C16" => "every transition T_i -> T_i+1 is checked against the iteration's recorded sample and validity answers: at most one node per tree, nearest node, one bounded step toward the sample, rejected motions add nothing, RRT-Connect tree balancing and connect step; goal-bias counts over long runs for bias 0, p, 1; non-trivial = at least 3 transitions of which one added a node",
             _ => "every RRT* transition is checked with costs: cost = parent cost + edge, parent among nearest/neighbours and no dearer than via the nearest node (exactly cheapest in obstacle-free worlds), rewiring only to the new node, strictly cheaper, within the radius, validated, all other nodes untouched (and complete in obstacle-free worlds), recorded cost >= true branch length; RRT vs RRT* twin on the same seed; non-trivial = at least 3 transitions of which one added a node",
         };
-        format!("indices below fixtures x sequences: EVERY sample sequence up to depth 5 (quick) / 6 (thorough) over a 4- (5-) state alphabet, for 12 fixtures (6 space kinds x {{alphabet world with a padded invalid alphabet state, obstacle-free}}) per planner kind; remaining indices: scenario i = space, world (incl. alphabet worlds that pad invalid alphabet states with a small ball), planner and seed, sampling either passthrough (the planner's seeded generator) or a script over a state alphabet (duplicates, seam and antipodal states, q/-q, near-parallel quaternions); prefix replay gives the tree after every iteration (depth 24 quick / 48 thorough); {own}; distinct = distinct scenario hash; distinct_tree_shapes counts parent-array shapes reached")
+        format!("indices below fixtures x sequences: EVERY sample sequence up to depth 5 (quick) / 6 (thorough) over a 4- (5-) state alphabet, for 12 fixtures (6 space kinds x {{alphabet world with a padded invalid alphabet state, obstacle-free}}) per planner kind; remaining indices: scenario i = space, world (incl. alphabet worlds that pad invalid alphabet states with a small ball), planner and seed, sampling either passthrough (the planner's seeded generator) or a script over a state alphabet (duplicates, seam and antipodal states, q/-q, near-parallel quaternions); prefix replay gives the tree after every iteration (depth 24 quick / 48 thorough); stepwise histories go on after a returned path; a fifteenth of the scenarios are SO(2) / SE(2) lattice worlds (exact half turns), the obstructed R^n fixture is dyadic with a point obstacle, an eighth assign the public parameter fields after setup, a quarter of the prefix-replay scenarios draw goal samples from the planner's generator with goal bias up to exactly 1; {own}; distinct = distinct scenario hash; distinct_tree_shapes counts parent-array shapes reached")
     }
     fn default_runs(&self, tier: Tier) -> u64 {
         let (fx, per, _, _) = self.enum_layout(tier);
